@@ -41,6 +41,14 @@ def rand_opts(R):
 def generate(R, tier):
     n = 10000 if tier == "quick" else 500000
     top = 2000 if tier == "quick" else 65535
+    # the MSS / window pairs the Options defaults name (the p0f-sendsyn probe: MSS 1331, window 1337) and their neighbours: ordinary packets for MTU purposes
+    for v in (4, 6):
+        for fl in (2, 0x12):
+            for mss in (1331, 1330, 1337):
+                for win in (1337, 1331, 8192, 0):
+                    hit = mss + (40 if v == 4 else 60)
+                    yield {"stream": "special-mss-window", "mode": "sniffed", "spec": {"v": v, "flags": fl, "ack": 9 if fl == 0x12 else 0, "win": win, "opts": W.o_mss(mss)},
+                           "m": hit, "dbm": [hit + 1, hit, hit]}
     for mss in range(1, top + 1):
         v = 4 if mss % 2 else 6
         yield {"stream": "mss-sweep", "mode": "sniffed", "spec": {"v": v, "flags": 2, "opts": W.o_mss(mss)}, "m": min(65535, mss + 40), "dbm": [min(65535, x) for x in (mss + 39, mss + 60, mss + 40, mss + 40)]}
@@ -77,6 +85,15 @@ def generate(R, tier):
         yield c
 
 
+def spell(m, k, raw=False):
+    """One of the spellings of the number m that the signature grammar (int()) accepts; deterministic in (m, k)."""
+    forms = ["%d", "%d", "%d", "+%d", "0%d", "00%d"] + (["%d ", " %d", "%d\n", "\t%d"] if raw else [])
+    f = forms[(m * 7 + k) % len(forms)]
+    if m >= 1000 and (m + k) % 11 == 0:
+        return format(m, "_")                     # 1_500
+    return f % m
+
+
 def db_lines(dbm):
     """The records in file order.  With three or more of them the [mtu] section is opened AGAIN half-way (another section in between): a section
     continued further down accumulates (deterministic in dbm, so model and implementation see the same file)."""
@@ -88,7 +105,7 @@ def db_lines(dbm):
             lines += ["[tcp:request]", "label = s:unix:X:y", "[mtu]"]
         ind = ["", "", " ", "\t", "    "][(m + i) % 5]          # parameter lines may be indented
         lines.append(ind + "label = L%d" % i)
-        lines.append(ind + "sig = %d" % m)
+        lines.append(ind + "sig = " + spell(m, i))
         recs.append((len(lines), m))
     return lines, recs
 
@@ -232,7 +249,7 @@ def impl_init():
         out["fields_before"] = fields(base)
         # half of the time the packet is impersonated IN PLACE (no copy): the object handed back is then re-fingerprinted as it is
         work = base.copy() if c["m"] % 2 else base
-        res = impersonate_mtu(work, raw_signature=str(c["m"]))
+        res = impersonate_mtu(work, raw_signature=spell(c["m"], len(c.get("dbm") or []), raw=True))
         out["same_object"] = res is work
         out["after"] = canon(res.getlayer("TCP").options)
         out["fields_after"] = fields(res)
